@@ -290,15 +290,29 @@ def gen_td(r, tbl, depth, probe):
 
 
 def nullable_spec(t) -> bool:
-    """the serializer's notion of a nullable field type (only those get the `is not None` test under
-    omit_none): Any, None, Optional / Union with a direct None member -- not Literal[None]"""
+    """the serializer's notion of a nullable field type (CodeBuilder.is_field_nullable without the default clause):
+    Any, None, or Optional[X] = a union of exactly two distinct members one of which is None (helpers.is_optional);
+    Union[int, None, str] and Literal[None] are not"""
     while t[0] == "newtype":
         t = t[1]
-    if t[0] in ("any", "none", "opt"):
+    if t[0] in ("any", "none"):
         return True
-    if t[0] == "union":
-        return any(m[0] in ("none", "any", "opt") or (m[0] == "union" and nullable_spec(m)) for m in t[1])
-    return False
+    if t[0] not in ("opt", "union"):
+        return False
+
+    def flat(u):
+        if u[0] == "opt":
+            return flat(u[1]) + [("none",)]
+        if u[0] == "union":
+            return [x for m in u[1] for x in flat(m)]
+        return [u]
+    ms = []
+    for m in flat(t):
+        if m not in ms:
+            ms.append(m)
+    if len(ms) == 1:
+        return ms[0][0] in ("none", "any")
+    return len(ms) == 2 and ("none",) in ms
 
 
 def has_reset_collection(t, tbl, seen=None) -> bool:
@@ -779,11 +793,6 @@ def gen_value(r, t, tbl: Table, probe, depth=0):
             if f["default"] is not None and r.random() < 0.4:
                 continue        # take the default
             fv = gen_value(r, subst(f["type"], env), tbl, probe, depth + 1)
-            if fv == ("none",) and f["default"] is None and (d.get("cfg") or {}).get("omit_none") and not probe:
-                for _ in range(5):      # omit_none drops the key of a *required* field (known finding): probe mode only
-                    fv = gen_value(r, subst(f["type"], env), tbl, probe, depth + 1)
-                    if fv != ("none",):
-                        break
             fs.append((f["name"], fv))
         return ("obj", t[1], fs)
     if k == "nt":
